@@ -24,7 +24,7 @@ def main():
         if r.get('args') is not None:
             out['args'] = jsonx.enc(r['args'])
     except BaseException as e:  # noqa
-        out['status'] = 'ERROR'
+        out['status'] = 'UNKNOWN' if type(e).__name__ == 'HarnessAssumption' else 'ERROR'
         out['message'] = repr(e) + ' ' + traceback.format_exc()[-1500:]
     out['wall_s'] = round(time.time() - t0, 2)
     sys.stdout.write('\n@@RESULT@@' + json.dumps(out) + '\n')
